@@ -38,7 +38,7 @@ impl InnerFunctionManager {
                         min = Some(num);
                     }
                 }
-                Ok(Value::Number(min.unwrap()))
+                min.map(Value::Number).ok_or(Error::ParamInvalid())
             }),
         );
 
@@ -52,7 +52,7 @@ impl InnerFunctionManager {
                         max = Some(num);
                     }
                 }
-                Ok(Value::Number(max.unwrap()))
+                max.map(Value::Number).ok_or(Error::ParamInvalid())
             }),
         );
 
@@ -61,7 +61,9 @@ impl InnerFunctionManager {
             Arc::new(|params| {
                 let mut ans = Decimal::ZERO;
                 for param in params.into_iter() {
-                    ans += param.decimal()?;
+                    ans = ans
+                        .checked_add(param.decimal()?)
+                        .ok_or(Error::ParamInvalid())?;
                 }
                 Ok(Value::Number(ans))
             }),
@@ -72,7 +74,9 @@ impl InnerFunctionManager {
             Arc::new(|params| {
                 let mut ans = Decimal::ONE;
                 for param in params.into_iter() {
-                    ans *= param.decimal()?;
+                    ans = ans
+                        .checked_mul(param.decimal()?)
+                        .ok_or(Error::ParamInvalid())?;
                 }
                 Ok(Value::Number(ans))
             }),
